@@ -1,0 +1,45 @@
+//go:build verif
+
+package hashing
+
+//@ spec func wrapperOK(t ref) bool = t != nil && t.Reader != nil && (t.CalculateSignature ==> t.hash != nil)
+
+//@ func Sum64
+//@   props C07 C01 C11 C18
+//@   pure
+//@   fresh r0
+//@   ensures len(ret) == 8
+//@   loop 1 invariant 0 <= i && i <= len(key)
+//@   loop 1 decreases len(key) - i
+
+//@ func HashingReaderWrapper.Read
+//@   props C07 C04 C06
+//@   requires wrapperOK(t)
+//@   assigns *bytes, X.stream, X.hash
+
+//@ func HashingReaderWrapper.Peek
+//@   props C07 C06
+//@   requires wrapperOK(t)
+//@   assigns X.stream
+
+//@ func HashingReaderWrapper.StartHashCalculation
+//@   props C04 C06 C07
+//@   requires t != nil
+//@   assigns HashingReaderWrapper.CalculateSignature, HashingReaderWrapper.hash, X.hash
+//@   ensures t.CalculateSignature && t.hash != nil && t.Reader == old(t.Reader)
+
+//@ func HashingReaderWrapper.FinishHashCalculation
+//@   props C04 C06 C07
+//@   requires t != nil && t.hash != nil
+//@   assigns HashingReaderWrapper.CalculateSignature, X.hash
+//@   ensures !t.CalculateSignature && t.Reader == old(t.Reader) && t.hash == old(t.hash)
+
+//@ func HashingReaderWrapper.Discard
+//@   props C07
+//@   requires t != nil && t.Reader != nil
+//@   assigns X.stream
+
+//@ func HashingReaderWrapper.Reset
+//@   props C07
+//@   requires t.Reader != nil
+//@   assigns X.stream
